@@ -92,7 +92,10 @@ def run_rel(ctx, cases, metas, shards=8):
         ctx.case(key, nontrivial=nontrivial)
         if i in fails:
             names = sorted(set(fails[i]))
-            ctx.violation("rel|%s|%s" % ("+".join(names[:6]), key.split("#")[0]),
+            base = key.split("#")[0]
+            vkey = ("rel|%s|%s" % (base[len("namelast:"):], "+".join(names[:6])) if base.startswith("namelast:")
+                    else "rel|%s|%s" % ("+".join(names[:6]), base))
+            ctx.violation(vkey,
                           "%s: TLC rejects assertion(s) %s (tolerance units 1e-10*scale, scale=%g)" % (
                               desc, names, cases[i]["scale"]),
                           {"meta": payload, "failed": names, "case": cases[i]})
